@@ -307,6 +307,7 @@ class DensityTauNative:
                      dict(kind="a single shifted mesh point", kmesh=[1, 1, 1], kshift=[0.15, -0.1, 0.05]),
                      dict(kind="a 3x1x1 Monkhorst-Pack mesh reduced by trs() after a first build, then built again", kmesh=[3, 1, 1], kshift=[0.0, 0.0, 0.0], trs=True),
                      dict(kind="weights assigned on the k-point object of a built Atoms object (atoms.kpts.wk = ...)", kmesh=[3, 1, 1], kshift=[0.0, 0.0, 0.0], assign_wk=[0.2, 0.3, 0.5]),
+                     dict(kind="one object evaluated, then given other k-points / another cell / another cut-off and built again", kmesh=[2, 1, 1], kshift=[0.0, 0.1, 0.0], rebuild=True),
                      dict(kind="37 states per k-point and spin", states=37), dict(kind="45 states per k-point and spin", states=45)):
             bad += self.one(seed, kset, Atoms, xp, orth, get_n_spin, get_n_total, get_n_single, get_tau, get_Ekin)
         return bad
@@ -340,7 +341,7 @@ class DensityTauNative:
         if isinstance(kset, dict) and "states" in kset and at.occ.Nstate != kset["states"]:
             raise RuntimeError("harness: the requested number of states was not set up")
         W = [xp.asarray(rng.standard_normal((2, len(at.Gk2c[ik]), at.occ.Nstate)) + 1j * rng.standard_normal((2, len(at.Gk2c[ik]), at.occ.Nstate))) for ik in range(at.kpts.Nk)]
-        Y = orth(at, W)
+        Y = list(orth(at, W))
         bad = []
 
         def evaluate(stage):
@@ -365,6 +366,27 @@ class DensityTauNative:
         evaluate("fillings overwritten in place (atoms.occ.f[...] = new)")
         at.occ._f = xp.asarray(rng.uniform(0.2, 0.9, np.shape(fa)))
         evaluate("a new filling array assigned")
+        if isinstance(kset, dict) and kset.get("rebuild"):
+            # every quantity above has been evaluated once on this object: whatever an implementation keeps on the object must follow the inputs
+            def k_shift():
+                at.kpts.kshift = [0.2, -0.1, 0.3]
+
+            def k_single():
+                at.set_k([[0.3, 0.2, -0.1]], [1.0])
+
+            def cell():
+                at.a = [[6.4, 0.0, 0.2], [0.3, 6.1, 0.0], [0.0, 0.4, 7.3]]
+
+            def cutoff():
+                at.ecut = 4
+
+            for what, change in (("other k-point shift", k_shift), ("one custom k-point through set_k", k_single), ("another cell", cell), ("another cut-off", cutoff)):
+                change()
+                at.build()
+                W2 = [xp.asarray(rng.standard_normal((2, len(at.Gk2c[ik]), at.occ.Nstate)) + 1j * rng.standard_normal((2, len(at.Gk2c[ik]), at.occ.Nstate))) for ik in range(at.kpts.Nk)]
+                Y[:] = orth(at, W2)
+                at.occ._f = xp.asarray(rng.uniform(0.2, 0.9, np.shape(at.occ.f)))
+                evaluate(f"same object after {what} and build()")
         return bad
 
     def __call__(self, ob, tier, seed):
